@@ -1627,7 +1627,7 @@ def check_C10(res):
         d, st, objs = fc.split_read(a)
         oc = d.get('outcome', a.split()[1] if len(a.split()) > 1 else a)
         outcomes[oc] = outcomes.get(oc, 0) + 1
-        if not fc.compare_read(summary, ma, a):
+        if not fc.compare_read(summary, ma, a, ignore_usize=True):
             # a memory error or hang the model does not predict is itself a disagreement
             dis += 1
             if dis <= 15:
